@@ -11,8 +11,16 @@ w-metablock's (BV/Model/MetaBlock.lean, imported, not copied); `decStep` / `repl
 Scope: one `CreateBackwardReferences` call covering one meta-block (`mb` = the `last_insert_len`
 pending literals followed by the `num_bytes` of the block), NPOSTFIX = NDIRECT = 0 (what quality 2–3
 and every non-FONT mode use), positions = number of bytes produced so far (no wrap of the 3 GiB
-position counter), H10 / Zopfli (quality 10, 11) out of scope.  `RingView` (the ring buffer holds
-the text) is the single named hypothesis about `encode.rs`'s `RingBufferWrite`.
+position counter), H10 / Zopfli (quality 10, 11) out of scope.
+
+The ring hypothesis (`BlockOK.ring`) is EXACTLY w-stream's `RingViewW` (BV/Props/C01.lean), which
+`ring_view_w` proves from the `RingBufferWrite` invariant `RingOK` (`ring_buffer_faithful`): positions at
+their offset, wrapped positions with offset < tail mirrored behind the ring; nothing about the 7 slack
+bytes or about tail cells of first-lap positions.  `ring_hypothesis_of_ringOK`, `blockOK_of_ringOK` and
+`cbr_fast_roundtrip_of_ringOK` compose the two developments.  The one remaining representation step is
+`hdata`: the `ByteArray` the match-finder models read is the slice `data_mo[2..]` of w-stream's cell
+map (`(data.get! i).toNat = rb.get (2 + i)` for the cells of ring + tail).  Side conditions: the tail is
+at most the ring (`RingGeom.tail`) and the bytes handed to the call are at most one tail (input block).
 -/
 import BV.Lemmas.CbrOps
 import BV.Lemmas.CbrDict
@@ -22,12 +30,19 @@ namespace BV.Props.C01Chain
 open BV.Hasher BV.MatchFinder BV.Recoder BV.PrefixArith BV.MetaBlock BV.Cbr
 
 /-- the hypotheses about one meta-block shared by the theorems below -/
-structure BlockOK (p : Params) (large : Bool) (data : ByteArray) (k : Nat) (hist mb : Bytes) (lo : Nat) : Prop where
+structure BlockOK (p : Params) (large : Bool) (data : ByteArray) (k tail : Nat) (hist mb : Bytes) (lo : Nat) : Prop where
   np : p.npostfix = 0
   nd : p.ndirect = 0
-  /-- the ring buffer (ring size `2^k`, tail mirroring the head) holds the text `hist ++ mb` from
-  position `lo` on; `lo` is at least a window before the block -/
-  ring : RingView data k (hist ++ mb) lo (hist.length + mb.length)
+  /-- the ring hypothesis is EXACTLY w-stream's `RingViewW` (proved from `RingOK` by `ring_view_w`),
+  over the bytes of the slice the hashers read: the ring (size `2^k`) holds the text `hist ++ mb` from
+  position `lo` on at offset `p mod 2^k`, and wrapped positions with offset below `tail` are also
+  behind the ring; `lo` is at least a window before the block -/
+  ring : BV.Props.C01.RingViewW (ringBytes data) k tail (hist ++ mb) lo (hist.length + mb.length)
+  /-- `tail_size_` (one input block) is at most the ring (`RingGeom.tail`: even half of it), and the
+  bytes handed to this call — pending literals + block — are at most one input block, so that no match
+  read runs past ring + tail -/
+  tail_le : tail ≤ 2 ^ k
+  block_le : mb.length ≤ tail
   lo_le : lo ≤ hist.length - maxBackwardLimit p
   /-- `2^lgwin - 16 ≤ 2^30` (lgwin ≤ 30); the standard distance alphabet is only used up to lgwin 24,
   with `params.dist.max_distance = 0x3FFFFFC` (the bound `TestStaticDictionaryItem` checks) -/
@@ -45,8 +60,8 @@ block: the command list of `CreateBackwardReferences`, closed with the insert-on
 trailing literals as `encode.rs` does, satisfies `cmdOK` for every command and `lockstep`, and the
 RFC decoder replays it to exactly `hist ++ mb`. -/
 theorem commands_lockstep {H : Type} (ops : HasherOps H) (p : Params) (large : Bool) (wo : WordOracle)
-    (data : ByteArray) (k : Nat) (hist mb : Bytes) (lo : Nat)
-    (hb : BlockOK p large data k hist mb lo) (hops : OpsOK (SlotOK wo) ops p data k)
+    (data : ByteArray) (k tail : Nat) (hist mb : Bytes) (lo : Nat)
+    (hb : BlockOK p large data k tail hist mb lo) (hops : OpsOK (SlotOK wo) ops p data k)
     (numBytes position : Nat) (h0 : H) (cache : List Int) (lastInsertLen numLiterals : Nat) (res : Result H)
     (hpos : position = hist.length + lastInsertLen) (hmb : mb.length = lastInsertLen + numBytes)
     (hc : CacheI32 cache) (hcl : 4 ≤ cache.length)
@@ -58,7 +73,7 @@ theorem commands_lockstep {H : Type} (ops : HasherOps H) (p : Params) (large : B
       (closeMetaBlock res.cmds res.lastInsertLen) = some (hist ++ mb) := by
   have p24 : (2 : Nat) ^ 24 = 16777216 := by decide
   obtain ⟨a, b, c⟩ := cbr_lockstep (C := ⟨wo, data, k, hist, mb, lo⟩) hops
-    (emitHyp_all ⟨wo, data, k, hist, mb, lo⟩ p large hb.np hb.nd hb.ring hb.lo_le hb.window hb.std hb.dist hb.len)
+    (emitHyp_all ⟨wo, data, k, hist, mb, lo⟩ p large hb.np hb.nd tail hb.ring hb.tail_le hb.block_le hb.lo_le hb.window hb.std hb.dist hb.len)
     (fun l _ hl => cmdOK_initInsert large l (Nat.le_trans hl hb.len))
     numBytes position h0 cache lastInsertLen numLiterals res hpos hmb (show mb.length < 2 ^ 32 by have := hb.len; omega) hb.total hc hcl h
   simp only [hb.np, hb.nd] at a c
@@ -72,7 +87,7 @@ under each of the ten cut-off transforms is the word minus its last `cut` bytes)
 dictionary off (`dict = fun _ _ => none`, `params.use_dictionary = false`, every catable / appendable
 stream) that hypothesis is `dictFaithful_none`, i.e. nothing. -/
 theorem commands_lockstep_basic (P : BasicP) (useDict : Bool) (lbs : Nat) (p : Params) (large : Bool) (wo : WordOracle)
-    (data : ByteArray) (k : Nat) (hk : k ≤ 32) (hist mb : Bytes) (lo : Nat) (hb : BlockOK p large data k hist mb lo)
+    (data : ByteArray) (k tail : Nat) (hk : k ≤ 32) (hist mb : Bytes) (lo : Nat) (hb : BlockOK p large data k tail hist mb lo)
     (dict : ByteArray → Nat → Option (List DictItem)) (hd : DictFaithful wo dict data)
     (numBytes position : Nat) (b0 : Tab) (c0 : Common) (cache : List Int) (lastInsertLen numLiterals : Nat)
     (res : Result (Tab × Common))
@@ -84,13 +99,13 @@ theorem commands_lockstep_basic (P : BasicP) (useDict : Bool) (lbs : Nat) (p : P
     lockstep wo 0 0 (maxBackwardLimit p) mb ⟨hist, cache.take 4, 0⟩ 0 (closeMetaBlock res.cmds res.lastInsertLen) = true ∧
     replayCommands wo 0 0 (maxBackwardLimit p) mb (cache.take 4) hist (closeMetaBlock res.cmds res.lastInsertLen)
       = some (hist ++ mb) :=
-  commands_lockstep _ p large wo data k hist mb lo hb
+  commands_lockstep _ p large wo data k tail hist mb lo hb
     (basicOps_ok _ P useDict lbs _ data k hk p hd)
     numBytes position (b0, c0) cache lastInsertLen numLiterals res hpos hmb hc hcl h
 
 theorem commands_lockstep_adv (P : AdvP) (hla : 4 ≤ P.lookahead) (numLast lbs : Nat) (p : Params) (large : Bool)
-    (wo : WordOracle) (data : ByteArray) (k : Nat) (hk : k ≤ 32) (hist mb : Bytes) (lo : Nat)
-    (hb : BlockOK p large data k hist mb lo)
+    (wo : WordOracle) (data : ByteArray) (k tail : Nat) (hk : k ≤ 32) (hist mb : Bytes) (lo : Nat)
+    (hb : BlockOK p large data k tail hist mb lo)
     (dict : ByteArray → Nat → Option (List DictItem)) (hd : DictFaithful wo dict data)
     (numBytes position : Nat) (st0 : AdvSt) (c0 : Common) (cache : List Int) (lastInsertLen numLiterals : Nat)
     (res : Result (AdvSt × Common))
@@ -102,13 +117,13 @@ theorem commands_lockstep_adv (P : AdvP) (hla : 4 ≤ P.lookahead) (numLast lbs 
     lockstep wo 0 0 (maxBackwardLimit p) mb ⟨hist, cache.take 4, 0⟩ 0 (closeMetaBlock res.cmds res.lastInsertLen) = true ∧
     replayCommands wo 0 0 (maxBackwardLimit p) mb (cache.take 4) hist (closeMetaBlock res.cmds res.lastInsertLen)
       = some (hist ++ mb) :=
-  commands_lockstep _ p large wo data k hist mb lo hb
+  commands_lockstep _ p large wo data k tail hist mb lo hb
     (advOps_ok _ P numLast lbs _ data k hk p hla hd)
     numBytes position (st0, c0) cache lastInsertLen numLiterals res hpos hmb hc hcl h
 
 theorem commands_lockstep_h9 (P : H9P) (lbs : Nat) (p : Params) (large : Bool)
-    (wo : WordOracle) (data : ByteArray) (k : Nat) (hk : k ≤ 32) (hist mb : Bytes) (lo : Nat)
-    (hb : BlockOK p large data k hist mb lo)
+    (wo : WordOracle) (data : ByteArray) (k tail : Nat) (hk : k ≤ 32) (hist mb : Bytes) (lo : Nat)
+    (hb : BlockOK p large data k tail hist mb lo)
     (dict : ByteArray → Nat → Option (List DictItem)) (hd : DictFaithful wo dict data)
     (numBytes position : Nat) (st0 : AdvSt) (c0 : Common) (cache : List Int) (lastInsertLen numLiterals : Nat)
     (res : Result (AdvSt × Common))
@@ -120,21 +135,22 @@ theorem commands_lockstep_h9 (P : H9P) (lbs : Nat) (p : Params) (large : Bool)
     lockstep wo 0 0 (maxBackwardLimit p) mb ⟨hist, cache.take 4, 0⟩ 0 (closeMetaBlock res.cmds res.lastInsertLen) = true ∧
     replayCommands wo 0 0 (maxBackwardLimit p) mb (cache.take 4) hist (closeMetaBlock res.cmds res.lastInsertLen)
       = some (hist ++ mb) :=
-  commands_lockstep _ p large wo data k hist mb lo hb
+  commands_lockstep _ p large wo data k tail hist mb lo hb
     (h9Ops_ok _ P lbs _ data k hk p hd)
     numBytes position (st0, c0) cache lastInsertLen numLiterals res hpos hmb hc hcl h
 
-/-- non-vacuity: a concrete ring buffer, hasher, dictionary slot and word oracle satisfy every
+/-- non-vacuity: a concrete ring buffer (first lap: tail and slack all zero, as the code leaves them), hasher, dictionary slot and word oracle satisfy every
 hypothesis of `commands_lockstep_basic`; the run emits a static-dictionary reference, and
 `commands_lockstep_basic` yields that the RFC decoder replays the closed command list to the text -/
-example : ∃ res, createBackwardReferences (basicOps Example.hasher true 540 Example.dict Example.data (2 ^ 5 - 1))
+example : ∃ res, createBackwardReferences (basicOps Example.hasher true 540 Example.dict Example.data (2 ^ 6 - 1))
       Example.params 32 0 (Array.replicate 32 0, ⟨0, 0⟩) [4, 11, 15, 16] 0 0 = some res ∧
     closeMetaBlock res.cmds res.lastInsertLen = [⟨8, 4, 1, 186, 3092⟩, initInsert 20] ∧
     replayCommands Example.oracle 0 0 (maxBackwardLimit Example.params) Example.text [4, 11, 15, 16] []
       (closeMetaBlock res.cmds res.lastInsertLen) = some Example.text := by
-  have hb : BlockOK Example.params false Example.data 5 [] Example.text 0 :=
-    ⟨rfl, rfl, Example.ring_ok, by decide, by decide, fun _ => by decide, fun _ => by decide, by decide, by decide⟩
-  cases hr : createBackwardReferences (basicOps Example.hasher true 540 Example.dict Example.data (2 ^ 5 - 1))
+  have hb : BlockOK Example.params false Example.data 6 32 [] Example.text 0 :=
+    ⟨rfl, rfl, Example.ring_ok, by decide, by decide, by decide, by decide, fun _ => by decide, fun _ => by decide,
+      by decide, by decide⟩
+  cases hr : createBackwardReferences (basicOps Example.hasher true 540 Example.dict Example.data (2 ^ 6 - 1))
       Example.params 32 0 (Array.replicate 32 0, ⟨0, 0⟩) [4, 11, 15, 16] 0 0 with
   | none => have := Example.run; rw [hr] at this; cases this
   | some res =>
@@ -142,7 +158,7 @@ example : ∃ res, createBackwardReferences (basicOps Example.hasher true 540 Ex
     rw [hr] at hrun
     simp only [Option.map_some, Option.some.injEq, Prod.mk.injEq] at hrun
     obtain ⟨_, _, hrep⟩ := commands_lockstep_basic Example.hasher true 540 Example.params false Example.oracle
-      Example.data 5 (by decide) [] Example.text 0 hb Example.dict Example.dict_ok 32 0 (Array.replicate 32 0) ⟨0, 0⟩
+      Example.data 6 32 (by decide) [] Example.text 0 hb Example.dict Example.dict_ok 32 0 (Array.replicate 32 0) ⟨0, 0⟩
       [4, 11, 15, 16] 0 0 res rfl rfl (by intro x hx; simp at hx; rcases hx with rfl | rfl | rfl | rfl <;> decide)
       (by decide) hr
     refine ⟨res, rfl, ?_, by simpa using hrep⟩
@@ -156,8 +172,8 @@ hasher; the writer does not panic, and the RFC reader, started with the decoder 
 `(hist, distance cache)`, consumes exactly the emitted bits and outputs `hist ++ mb`.
 (`ring`/`RingHolds`/`inputPairCheck` are the writer's view of the same ring buffer.) -/
 theorem cbr_fast_roundtrip {H : Type} (ops : HasherOps H) (p : Params) (large : Bool) (wo : WordOracle)
-    (data : ByteArray) (k : Nat) (hist mb : Bytes) (lo : Nat)
-    (hb : BlockOK p large data k hist mb lo) (hops : OpsOK (SlotOK wo) ops p data k)
+    (data : ByteArray) (k tail : Nat) (hist mb : Bytes) (lo : Nat)
+    (hb : BlockOK p large data k tail hist mb lo) (hops : OpsOK (SlotOK wo) ops p data k)
     (numBytes position : Nat) (h0 : H) (cache : List Int) (lastInsertLen numLiterals : Nat) (res : Result H)
     (hpos : position = hist.length + lastInsertLen) (hmb : mb.length = lastInsertLen + numBytes)
     (hc : CacheI32 cache) (hcl : 4 ≤ cache.length)
@@ -170,7 +186,7 @@ theorem cbr_fast_roundtrip {H : Type} (ops : HasherOps H) (p : Params) (large : 
         (closeMetaBlock res.cmds res.lastInsertLen) w = .ok (w ++ bits) ∧
       ∀ rest, readMetaBlockFull wo (maxBackwardLimit p) large w.length ⟨hist, cache.take 4⟩ (bits ++ rest)
         = some (⟨hist ++ mb, ring'⟩, isLast, (w ++ bits).length, rest) := by
-  obtain ⟨hok, hlock, hrep⟩ := commands_lockstep ops p large wo data k hist mb lo hb hops numBytes position h0 cache
+  obtain ⟨hok, hlock, hrep⟩ := commands_lockstep ops p large wo data k tail hist mb lo hb hops numBytes position h0 cache
     lastInsertLen numLiterals res hpos hmb hc hcl h
   obtain ⟨bits, out, ring', e, _, hrd, hout⟩ := BV.Props.C01MetaBlock.fast_metablock_roundtrip wo (maxBackwardLimit p)
     large ring start mask mb isLast _ hist (cache.take 4) w hR h256 h1 hb.len hst hIP hok hlock
@@ -180,8 +196,8 @@ theorem cbr_fast_roundtrip {H : Type} (ops : HasherOps H) (p : Params) (large : 
 
 /-- **cbr_trivial_roundtrip** — the same for quality 3 (`BrotliStoreMetaBlockTrivial`) -/
 theorem cbr_trivial_roundtrip {H : Type} (ops : HasherOps H) (p : Params) (large : Bool) (wo : WordOracle)
-    (data : ByteArray) (k : Nat) (hist mb : Bytes) (lo : Nat)
-    (hb : BlockOK p large data k hist mb lo) (hops : OpsOK (SlotOK wo) ops p data k)
+    (data : ByteArray) (k tail : Nat) (hist mb : Bytes) (lo : Nat)
+    (hb : BlockOK p large data k tail hist mb lo) (hops : OpsOK (SlotOK wo) ops p data k)
     (numBytes position : Nat) (h0 : H) (cache : List Int) (lastInsertLen numLiterals : Nat) (res : Result H)
     (hpos : position = hist.length + lastInsertLen) (hmb : mb.length = lastInsertLen + numBytes)
     (hc : CacheI32 cache) (hcl : 4 ≤ cache.length)
@@ -194,12 +210,110 @@ theorem cbr_trivial_roundtrip {H : Type} (ops : HasherOps H) (p : Params) (large
         (closeMetaBlock res.cmds res.lastInsertLen) w = .ok (w ++ bits) ∧
       ∀ rest, readMetaBlockFull wo (maxBackwardLimit p) large w.length ⟨hist, cache.take 4⟩ (bits ++ rest)
         = some (⟨hist ++ mb, ring'⟩, isLast, (w ++ bits).length, rest) := by
-  obtain ⟨hok, hlock, hrep⟩ := commands_lockstep ops p large wo data k hist mb lo hb hops numBytes position h0 cache
+  obtain ⟨hok, hlock, hrep⟩ := commands_lockstep ops p large wo data k tail hist mb lo hb hops numBytes position h0 cache
     lastInsertLen numLiterals res hpos hmb hc hcl h
   obtain ⟨bits, out, ring', e, _, hrd, hout⟩ := BV.Props.C01MetaBlock.trivial_metablock_roundtrip wo (maxBackwardLimit p)
     large ring start mask mb isLast _ hist (cache.take 4) w hR h256 h1 hb.len hst hIP hok hlock
   have := hout hrep
   subst this
   exact ⟨bits, ring', e, hrd⟩
+
+/-! ## the ring hypothesis from w-stream's `RingBufferWrite` invariant
+
+w-stream models `data_mo` as a cell map (`rb.get`); the match-finder models read a `ByteArray` (the slice
+`data_mo[2..]`).  The bridge is the one-line abstraction `hdata`: byte `i` of the slice is cell `2 + i`,
+for the cells of ring + tail (nothing is said about the slack). -/
+
+/-- **ring_hypothesis_of_ringOK**: `RingOK` (what `ring_buffer_faithful` establishes after any call
+history) yields the ring hypothesis of `BlockOK`, for the last `size_` bytes of the text -/
+theorem ring_hypothesis_of_ringOK {rb : BV.Stream.Ring} {T : Bytes} {k : Nat} (data : ByteArray)
+    (hR : BV.Stream.RingOK rb T) (hk : rb.size = 2 ^ k)
+    (hdata : ∀ i, i < 2 ^ k + rb.tailSize → (data.get! i).toNat = rb.get (2 + i)) :
+    BV.Props.C01.RingViewW (ringBytes data) k rb.tailSize T (T.length - rb.size) T.length ∧ rb.tailSize ≤ 2 ^ k := by
+  have hv := BV.Props.C01.ring_view_w hR hk
+  have ht : rb.tailSize ≤ 2 ^ k := by have := hR.geom.tail; omega
+  have hpos : 0 < 2 ^ k := Nat.pow_pos (by decide)
+  refine ⟨⟨?_, ?_⟩, ht⟩
+  · intro p hlo hhi
+    have := hv.holds p hlo hhi
+    have hm := Nat.mod_lt p hpos
+    simp only [ringBytes, hdata (p % 2 ^ k) (by omega)]
+    exact this
+  · intro p hlo hhi hge hr
+    have := hv.mirror p hlo hhi hge hr
+    simp only [ringBytes, hdata (2 ^ k + p % 2 ^ k) (by omega)]
+    exact this
+
+/-- `BlockOK` from `RingOK`: the ring invariant, the ring being at least window + block long (it is
+`2^(max(lgwin, lgblock) + 1)`), and the block at most one input block (`tail_size_`) -/
+theorem blockOK_of_ringOK {rb : BV.Stream.Ring} (p : Params) (large : Bool) (data : ByteArray) (k : Nat)
+    (hist mb : Bytes) (hR : BV.Stream.RingOK rb (hist ++ mb)) (hk : rb.size = 2 ^ k)
+    (hdata : ∀ i, i < 2 ^ k + rb.tailSize → (data.get! i).toNat = rb.get (2 + i))
+    (hnp : p.npostfix = 0) (hnd : p.ndirect = 0) (hwb : maxBackwardLimit p + mb.length ≤ rb.size)
+    (hblk : mb.length ≤ rb.tailSize) (hwin : maxBackwardLimit p ≤ 2 ^ 30)
+    (hstd : large = false → maxBackwardLimit p ≤ 2 ^ 26 - 4) (hdist : large = false → p.maxDistance ≤ 2 ^ 26 - 4)
+    (hlen : mb.length ≤ 2 ^ 24) (htot : hist.length + mb.length < 2 ^ 64) :
+    BlockOK p large data k rb.tailSize hist mb (hist.length + mb.length - rb.size) := by
+  obtain ⟨hv, ht⟩ := ring_hypothesis_of_ringOK data hR hk hdata
+  rw [List.length_append] at hv
+  exact ⟨hnp, hnd, hv, ht, hblk, by omega, hwin, hstd, hdist, hlen, htot⟩
+
+/-- **cbr_fast_roundtrip_of_ringOK** — the composed corollary: the ring hypothesis of `cbr_fast_roundtrip`
+discharged by w-stream's ring-buffer invariant.  After any history that leaves `RingOK rb (hist ++ mb)`
+(`ring_buffer_faithful`), with `data` = the slice the hashers read (`hdata`), the commands of
+`CreateBackwardReferences` written by `BrotliStoreMetaBlockFast` decode to `hist ++ mb`. -/
+theorem cbr_fast_roundtrip_of_ringOK {H : Type} {rb : BV.Stream.Ring} (ops : HasherOps H) (p : Params) (large : Bool)
+    (wo : WordOracle) (data : ByteArray) (k : Nat) (hist mb : Bytes)
+    (hR : BV.Stream.RingOK rb (hist ++ mb)) (hk : rb.size = 2 ^ k)
+    (hdata : ∀ i, i < 2 ^ k + rb.tailSize → (data.get! i).toNat = rb.get (2 + i))
+    (hnp : p.npostfix = 0) (hnd : p.ndirect = 0) (hwb : maxBackwardLimit p + mb.length ≤ rb.size)
+    (hblk : mb.length ≤ rb.tailSize) (hwin : maxBackwardLimit p ≤ 2 ^ 30)
+    (hstd : large = false → maxBackwardLimit p ≤ 2 ^ 26 - 4) (hdist : large = false → p.maxDistance ≤ 2 ^ 26 - 4)
+    (hlen : mb.length ≤ 2 ^ 24) (htot : hist.length + mb.length < 2 ^ 64)
+    (hops : OpsOK (SlotOK wo) ops p data k)
+    (numBytes position : Nat) (h0 : H) (cache : List Int) (lastInsertLen numLiterals : Nat) (res : Result H)
+    (hpos : position = hist.length + lastInsertLen) (hmb : mb.length = lastInsertLen + numBytes)
+    (hc : CacheI32 cache) (hcl : 4 ≤ cache.length)
+    (h : createBackwardReferences ops p numBytes position h0 cache lastInsertLen numLiterals = some res)
+    (ring : Bytes) (start mask : Nat) (isLast : Bool) (w : List Bool)
+    (hRH : RingHolds ring mask start mb) (h256 : ∀ b ∈ mb, b < 256) (h1 : 1 ≤ mb.length) (hst : start < 2 ^ 64)
+    (hIP : inputPairCheck ring start mb.length mask = .ok ()) :
+    ∃ bits ring',
+      storeMetaBlockFast ring start mb.length mask isLast (distAlphabetSize large 0 0)
+        (closeMetaBlock res.cmds res.lastInsertLen) w = .ok (w ++ bits) ∧
+      ∀ rest, readMetaBlockFull wo (maxBackwardLimit p) large w.length ⟨hist, cache.take 4⟩ (bits ++ rest)
+        = some (⟨hist ++ mb, ring'⟩, isLast, (w ++ bits).length, rest) :=
+  cbr_fast_roundtrip ops p large wo data k rb.tailSize hist mb _
+    (blockOK_of_ringOK p large data k hist mb hR hk hdata hnp hnd hwb hblk hwin hstd hdist hlen htot) hops
+    numBytes position h0 cache lastInsertLen numLiterals res hpos hmb hc hcl h ring start mask isLast w hRH h256 h1 hst hIP
+
+/-- **cbr_trivial_roundtrip_of_ringOK** — the same for quality 3: the ring hypothesis of `cbr_trivial_roundtrip`
+discharged by w-stream's ring-buffer invariant.  After any history that leaves `RingOK rb (hist ++ mb)`
+(`ring_buffer_faithful`), with `data` = the slice the hashers read (`hdata`), the commands of
+`CreateBackwardReferences` written by `BrotliStoreMetaBlockTrivial` decode to `hist ++ mb`. -/
+theorem cbr_trivial_roundtrip_of_ringOK {H : Type} {rb : BV.Stream.Ring} (ops : HasherOps H) (p : Params) (large : Bool)
+    (wo : WordOracle) (data : ByteArray) (k : Nat) (hist mb : Bytes)
+    (hR : BV.Stream.RingOK rb (hist ++ mb)) (hk : rb.size = 2 ^ k)
+    (hdata : ∀ i, i < 2 ^ k + rb.tailSize → (data.get! i).toNat = rb.get (2 + i))
+    (hnp : p.npostfix = 0) (hnd : p.ndirect = 0) (hwb : maxBackwardLimit p + mb.length ≤ rb.size)
+    (hblk : mb.length ≤ rb.tailSize) (hwin : maxBackwardLimit p ≤ 2 ^ 30)
+    (hstd : large = false → maxBackwardLimit p ≤ 2 ^ 26 - 4) (hdist : large = false → p.maxDistance ≤ 2 ^ 26 - 4)
+    (hlen : mb.length ≤ 2 ^ 24) (htot : hist.length + mb.length < 2 ^ 64)
+    (hops : OpsOK (SlotOK wo) ops p data k)
+    (numBytes position : Nat) (h0 : H) (cache : List Int) (lastInsertLen numLiterals : Nat) (res : Result H)
+    (hpos : position = hist.length + lastInsertLen) (hmb : mb.length = lastInsertLen + numBytes)
+    (hc : CacheI32 cache) (hcl : 4 ≤ cache.length)
+    (h : createBackwardReferences ops p numBytes position h0 cache lastInsertLen numLiterals = some res)
+    (ring : Bytes) (start mask : Nat) (isLast : Bool) (w : List Bool)
+    (hRH : RingHolds ring mask start mb) (h256 : ∀ b ∈ mb, b < 256) (h1 : 1 ≤ mb.length) (hst : start < 2 ^ 64)
+    (hIP : inputPairCheck ring start mb.length mask = .ok ()) :
+    ∃ bits ring',
+      storeMetaBlockTrivial ring start mb.length mask isLast (distAlphabetSize large 0 0)
+        (closeMetaBlock res.cmds res.lastInsertLen) w = .ok (w ++ bits) ∧
+      ∀ rest, readMetaBlockFull wo (maxBackwardLimit p) large w.length ⟨hist, cache.take 4⟩ (bits ++ rest)
+        = some (⟨hist ++ mb, ring'⟩, isLast, (w ++ bits).length, rest) :=
+  cbr_trivial_roundtrip ops p large wo data k rb.tailSize hist mb _
+    (blockOK_of_ringOK p large data k hist mb hR hk hdata hnp hnd hwb hblk hwin hstd hdist hlen htot) hops
+    numBytes position h0 cache lastInsertLen numLiterals res hpos hmb hc hcl h ring start mask isLast w hRH h256 h1 hst hIP
 
 end BV.Props.C01Chain
